@@ -19,6 +19,7 @@ import (
 	"fmt"
 	"maps"
 	"math"
+	"reflect"
 	"regexp"
 	"strconv"
 	"strings"
@@ -1745,7 +1746,7 @@ func ExecGroupBy(query *Query, current []any) ([]any, error) {
 		for _, group := range order {
 			isMatch := true
 			for key, value := range innerMap {
-				if (*group)[key] != value {
+				if !sameGroupKey((*group)[key], value) {
 					isMatch = false
 					break
 				}
@@ -1781,6 +1782,22 @@ func ExecGroupBy(query *Query, current []any) ([]any, error) {
 
 	}
 	return slice, nil
+}
+
+// sameGroupKey tells whether two values of a grouping column are the same key.
+// Numbers are the same key when they are the same number, whatever Go type
+// holds them (COUNT(*) yields an int, a literal a float64); a number and a
+// string that prints like it are different keys
+func sameGroupKey(a, b any) bool {
+	switch a.(type) {
+	case int, int8, int16, int32, int64, uint, uint8, uint16, uint32, uint64, float32, float64:
+		switch b.(type) {
+		case int, int8, int16, int32, int64, uint, uint8, uint16, uint32, uint64, float32, float64:
+			return compare.Compare(a, b) == 0
+		}
+		return false
+	}
+	return reflect.DeepEqual(a, b)
 }
 
 func ExecHaving(query *Query, current Map, opts ...ExprOption) (bool, error) {
